@@ -875,9 +875,13 @@ def rel_groups(r):
     return out
 
 
-def cli_args(case):
+def cli_args(case, stdin_roots=False):
     o = case["opts"]
     a = ["group", "-f", "json", "--no-ignore", "--base-dir", case["base_dir"]]
+    if o.get("cache"):
+        a.append("--cache")
+    if stdin_roots:
+        a.append("--stdin")
     if o.get("rf_over") is not None:
         a += ["--rf-over", str(o["rf_over"])]
     if o.get("rf_under") is not None:
@@ -898,17 +902,18 @@ def cli_args(case):
         a += ["--transform", o["transform"]]
     for t in o.get("threads") or []:
         a += ["--threads", "%s:%d,%d" % (t[0], t[1], t[2])]
-    return a + list(case["paths"])
+    return a + ([] if stdin_roots else list(case["paths"]))
 
 
-def run_cli(fclones_bin, case):
+def run_cli(fclones_bin, case, stdin_roots=False):
     """the same case through the command-line binary; returns the report body in the canonical form or 'ERR ..'"""
     env = {"TMPDIR": case["tmp"], "XDG_CACHE_HOME": case["tmp"] + "/cache"}
     if case["env"].get("disk_kind"):
         env["FCLONES_VERIF_DISK_KIND"] = case["env"]["disk_kind"]
     if case["env"].get("mounts"):
         env["FCLONES_VERIF_MOUNTS"] = case["env"]["mounts"]
-    p = core.run([fclones_bin] + cli_args(case), env=env, timeout=300, cwd=case["base_dir"])
+    p = core.run([fclones_bin] + cli_args(case, stdin_roots), env=env, timeout=300, cwd=case["base_dir"],
+                 input=("\n".join(case["paths"]) + "\n") if stdin_roots else None)
     if p.returncode != 0:
         return "ERR exit %d: %s" % (p.returncode, p.stderr[-300:])
     try:
@@ -919,6 +924,153 @@ def run_cli(fclones_bin, case):
     for g in rep.get("groups", []):
         gs.append((g["file_len"], g["file_hash"], [os.fsencode(x) for x in g["files"]]))
     return gs
+
+
+def gen_stdin_spec(rng, focus):
+    """trees for the input-mode dimension: roots that repeat, nest and overlap, files given as roots next to the
+    directory that holds them (what `find ... | fclones group --stdin` produces)"""
+    s = gen_spec(rng, focus, small=True)
+    o = s["opts"]
+    o["isolate"] = False           # --isolate needs the roots on the command line (config.rs validate)
+    o["transform"] = o["transform"] if rng.chance(1, 4) else None
+    roots = [p for p, _ in s["roots"]]
+    dirs = [d for d in s["dirs"] if d != "out"]
+    extra = []
+    if rng.chance(2, 3):
+        extra.append(rng.choice(roots))                                   # repeated line
+    if rng.chance(2, 3) and s["files"]:
+        extra += [f["p"] for f in rng.shuffle(s["files"])[:1 + rng.below(3)]]  # files inside a root that is also given
+    if rng.chance(1, 2):
+        sub = [d for d in dirs if "/" in d]
+        if sub:
+            extra.append(rng.choice(sub))                                 # nested directory
+    if rng.chance(1, 3) and s["files"]:
+        f = rng.choice(s["files"])["p"]
+        extra += [f, f]                                                   # the same file twice
+    s["roots"] = [[p, "plain"] for p in rng.shuffle(roots + extra)]
+    return s
+
+
+def stdin_mode_check(ctx, eng, specs):
+    """input-mode dimension at the CLI layer: the binary with the roots on argv and with the same roots on --stdin must
+    print the body fclones::group_files returned, and the --stdin report must satisfy the partition oracle"""
+    import shutil
+    fbin = core.build_fclones()
+    res = eng.run_specs(specs, keep=True)
+    for r in res:
+        ctx.count(2)
+        ctx.bump("input_mode", "argv+stdin")
+        ctx.bump("stdin_roots", min(len(r["case"]["paths"]), 8))
+        api = r["out"].get("impl", "ERR")
+        try:
+            if api.startswith(("ERR", "PANIC")):
+                continue
+            apig = parse_groups(api)
+            for mode in (False, True):
+                cli = run_cli(fbin, r["case"], stdin_roots=mode)
+                name = "stdin" if mode else "argv"
+                if isinstance(cli, str):
+                    ctx.violation({"kind": "cli_failed", "input_mode": name}, "fclones group (%s roots) failed: %s" % (name, cli[:300]),
+                                  replay_payload(r, {"cli_args": cli_args(r["case"], mode), "stdin": r["case"]["paths"] if mode else None}),
+                                  found_input=True)
+                    continue
+                cache = {}
+                bad = oracle_partition(r["case"], r["spec"]["opts"], r["out"]["scanned"], cli, cache)
+                if not r["spec"]["opts"].get("skip_content_hash"):
+                    bad += oracle_c01(r["spec"]["opts"], cli, cache)
+                bad = [b for b in bad if b["kind"] in OWN_KINDS[eng.focus]]
+                if bad:
+                    ctx.violation({"kind": bad[0]["kind"], "input_mode": name},
+                                  "fclones group with the roots on %s violates the property: %s" % (name, json.dumps(bad[0])[:500]),
+                                  replay_payload(r, {"cli_args": cli_args(r["case"], mode), "stdin": r["case"]["paths"] if mode else None,
+                                                     "oracle_on_cli_report": bad[:4]}), found_input=True)
+                elif [(a, b, c) for a, b, c in cli] != [(a, b, c) for a, b, c in apig]:
+                    ctx.violation({"kind": "cli_ne_api", "input_mode": name},
+                                  "the binary with the roots on %s and fclones::group_files disagree on the report body" % name,
+                                  replay_payload(r, {"cli_args": cli_args(r["case"], mode), "cli": str(cli)[:1500]}), found_input=False)
+        finally:
+            shutil.rmtree(r["where"], ignore_errors=True)
+    process_results(ctx, eng, res, do_search=False)
+
+
+def cache_history_check(ctx, eng, n):
+    """C01 'with or without the hash cache': group --cache, overwrite some reported members in place with same-length
+    different content and a different mtime (older / newer / same second), group --cache again; every group of the second
+    report is byte-compared"""
+    import shutil
+    fbin = core.build_fclones()
+    specs = []
+    for _ in range(n):
+        s = gen_spec(ctx.rng.fork(), "C01", small=True)
+        o = s["opts"]
+        o.update({"cache": True, "transform": None, "min_size": 0, "max_size": None, "unique": False, "rf_under": None,
+                  "isolate": False, "symbolic_links": False})
+        if o.get("rf_over") == 0:
+            o["rf_over"] = None
+        # make sure there is something to report: every content at least twice
+        for cid in list(s["contents"]):
+            have = [f for f in s["files"] if f["c"] == cid]
+            if len(have) == 1:
+                s["files"].append({"p": have[0]["p"] + "_copy", "c": cid})
+        s["symlinks"] = []
+        specs.append(s)
+    res = eng.run_specs(specs, keep=True)       # the API run does not use the cache directory of the CLI runs below
+    for r in res:
+        try:
+            case = dict(r["case"])
+            first = run_cli(fbin, case)
+            ctx.count()
+            if isinstance(first, str):
+                ctx.violation({"kind": "cli_failed", "input_mode": "cache"}, "group --cache failed: " + first[:300],
+                              replay_payload(r, {"cli_args": cli_args(case)}), found_input=True)
+                continue
+            cands = [g for g in first if len(g[2]) >= 2 and g[0] >= 1]
+            if not cands:
+                ctx.bump("cache_history", "nothing_reported")
+                continue
+            edits = []
+            for ei, (ln, h, paths) in enumerate(ctx.rng.shuffle(cands)[:2]):
+                victim = ctx.rng.choice(paths)
+                # every history restores at least one member with an OLDER mtime (cp -p / rsync --inplace of an old version)
+                how = ctx.rng.choice(["older", "much_older"]) if ei == 0 else ctx.rng.choice(["older", "newer", "same_second", "much_older"])
+                st = os.stat(victim)
+                pos = ctx.rng.below(ln)
+                with open(victim, "r+b") as fh:
+                    fh.seek(pos)
+                    b = fh.read(1)
+                    fh.seek(pos)
+                    fh.write(bytes([(b[0] + 1) % 256]))
+                old = st.st_mtime_ns
+                if how == "older":
+                    new = old - 100 * 10**9
+                elif how == "much_older":
+                    new = old - 400 * 86400 * 10**9
+                elif how == "newer":
+                    new = old + 100 * 10**9
+                else:
+                    sec = old // 10**9
+                    new = sec * 10**9 + ((old % 10**9) + 500 * 10**6) % 10**9       # same second, other millisecond
+                    if new == old:
+                        new = old + 10**6
+                os.utime(victim, ns=(new, new))
+                edits.append({"path": victim.decode("latin1"), "byte": pos, "mtime": how})
+                ctx.bump("cache_history", how)
+            second = run_cli(fbin, case)
+            ctx.count()
+            ctx.distinct(("cache_history", json.dumps(r["spec"], sort_keys=True), json.dumps(edits)), True)
+            if isinstance(second, str):
+                ctx.violation({"kind": "cli_failed", "input_mode": "cache"}, "second group --cache failed: " + second[:300],
+                              replay_payload(r, {"cli_args": cli_args(case), "edits": edits}), found_input=True)
+                continue
+            bad = oracle_c01(r["spec"]["opts"], second, {})
+            if bad:
+                ctx.violation({"kind": bad[0]["kind"], "cache": True},
+                              "group --cache after an in-place rewrite (same length, other content, mtime %s) reports files that are not "
+                              "identical: %s" % ([e["mtime"] for e in edits], json.dumps(bad[0])[:400]),
+                              replay_payload(r, {"history": ["fclones " + " ".join(cli_args(case)), edits, "fclones " + " ".join(cli_args(case))],
+                                                 "second_report_oracle": bad[:3]}), found_input=True)
+        finally:
+            shutil.rmtree(r["where"], ignore_errors=True)
 
 
 def gen_q_case(rng):
